@@ -3,6 +3,7 @@ package checks
 import (
 	"fmt"
 	"os"
+	"path/filepath"
 	"strings"
 
 	"verif/harness/internal/core"
@@ -199,7 +200,9 @@ func runC09Crash(c run.Ctx) *core.CaseResult {
 		}
 		seen[h] = true
 		for _, bits := range []uint8{newBits, oldBits} {
-			c09Recover(res, cfg, bits, u, rn, pnt)
+			// every second image additionally carries what an EARLIER translation leaves when it is
+			// interrupted at the very end of removing its old_index directory: the empty directory
+			c09Recover(res, cfg, bits, u, rn, pnt, len(seen)%2 == 0)
 		}
 		if len(res.Violations) >= 10 {
 			break
@@ -214,7 +217,7 @@ func runC09Crash(c run.Ctx) *core.CaseResult {
 	return res
 }
 
-func c09Recover(res *core.CaseResult, cfg gen.Config, bits uint8, u gen.Universe, orig *seq.Runner, p crash.Point) {
+func c09Recover(res *core.CaseResult, cfg gen.Config, bits uint8, u gen.Universe, orig *seq.Runner, p crash.Point, olderEmptyDir bool) {
 	dir, err := os.MkdirTemp(core.Scratch(), "vchk-rec9-")
 	if err != nil {
 		return
@@ -225,6 +228,10 @@ func c09Recover(res *core.CaseResult, cfg gen.Config, bits uint8, u gen.Universe
 	}
 	cfg.Bits = bits
 	env, _ := core.EnvAt(dir, cfg)
+	if olderEmptyDir {
+		os.MkdirAll(filepath.Join(filepath.Dir(env.IndexPath), "old_index000"), 0o755)
+		res.Add("recoveries_with_older_empty_old_index_dir", 1)
+	}
 	where := fmt.Sprintf("%s/%s", p.Hook, kindClass(p.Kind))
 	witness := map[string]any{"hook": p.Hook, "variant": p.Kind, "open_bits": bits, "files": p.Img.Listing()}
 	res.Add("recoveries", 1)
